@@ -163,3 +163,11 @@ package ipfsproxy
 // operation": the hijack route table, in both argument styles, and nothing else is hijacked ----
 //@ directive route_handlers New /pin/add=proxy.pinHandler /pin/add/{arg}=slashHandler(proxy.pinHandler) /pin/rm=proxy.unpinHandler /pin/rm/{arg}=slashHandler(proxy.unpinHandler) /pin/ls=proxy.pinLsHandler /pin/ls/{arg}=slashHandler(proxy.pinLsHandler) /pin/update=proxy.pinUpdateHandler /add=proxy.addHandler /repo/stat=proxy.repoStatHandler /repo/gc=proxy.repoGCHandler
 //@   property C12
+
+// ---- C18: "shutting a component down while it is in use": the shutdown flag is only read and written with the
+// shutdown lock held, so that concurrent Shutdown calls run the teardown once ----
+//@ guards Server.shutdownLock: shutdown
+//@ func (proxy *Server) Shutdown
+//@   property C18
+//@   opts own
+//@   modifies *
